@@ -251,9 +251,11 @@ def _layout(ctx, sws):
         from ..affine import affine
         lim = affine(rhs, lambda x: x == ("param", size_param))
         len_ok = lhs[0] == "call" and str(lhs[1]).endswith("Vec::<T, A>::len")
-        lim_ok = lim is not None and lim[0] == {("param", size_param): 1} and (lim[1] <= 0 if op == "Gt" else lim[1] <= 1)
+        # exactly "does not fit": len > size (or len >= size + 1).  A stricter test never sends too much but marks a reply that fits
+        # exactly as truncated — TC is set iff something was left out
+        lim_ok = lim is not None and lim[0] == {("param", size_param): 1} and (lim[1] == 0 if op == "Gt" else lim[1] == 1)
         ctx.check(len_ok and lim_ok, "R3", "truncation-guard:%s:len>limit" % tag, where,
-                  "the guard must be len(buffer) > size (+k, k <= 0): %s %s %s" % (show(lhs)[:40], op, show(rhs)[:40]))
+                  "the guard must be exactly len(buffer) > size: %s %s %s" % (show(lhs)[:40], op, show(rhs)[:40]))
         te = [(sbb, tgt) for v, tgt in cfg.switch_edges(sbb) if v != 0]
         fe = [(sbb, tgt) for v, tgt in cfg.switch_edges(sbb) if v == 0]
         # true edge: truncate(ret, saved) and flag = true and leaves the loop
